@@ -47,6 +47,7 @@ structure World where
   maps : List Mapping
   codes : List Code
   doms : List Nat          -- owner of each HTTP domain mapping
+  noExec : Bool := false   -- configuration: no CommandExecutor installed (`handleCommandPacket` falls back to `handleDefaultCommand`)
   bridge : Bool := false   -- a BridgeManager (message broker) joins the nodes; storage is shared by all nodes
 deriving DecidableEq, Repr
 
@@ -368,11 +369,25 @@ def execH (v : Variant) (h : Handler) (w : World) (f : Nat) (c : Cmd) : Run :=
     if v == .repaired && id == 0 then Run.failResp else
     Run.okResp ((idxFilter (fun o : Nat => o == id) w.doms 0).map Obj.dom) [] []
 
-/-- `SessionManager.HandlePacket` for a command packet: special cases, then executor + registry. -/
-def exec (v : Variant) (w : World) (f : Nat) (c : Cmd) : Run :=
+/-- special cases, then executor + registry -/
+def execDispatch (v : Variant) (w : World) (f : Nat) (c : Cmd) : Run :=
   match dispatch c.ctype c.resp with
   | none => Run.err                                 -- "no handler registered for command type"
   | some h => execH v h w f c
+
+/-- `handleDefaultCommand` (no executor installed): only ConfigGet does anything — `handleConfigGetCommand`
+pushes a ConfigSet to the asking connection itself: the configuration (mapping ids and secret keys) of the
+client authenticated on it, an empty configuration when nobody is; every other command is accepted silently. -/
+def execNoExec (w : World) (f : Nat) (c : Cmd) : Run :=
+  if c.ctype == c11.cmd.ConfigGet then
+    if !isCtl w f then Run.err
+    else if ident w f == 0 then ⟨true, .none, [], [], [⟨f, c11.cmd.ConfigSet, none⟩], []⟩
+    else ⟨true, .none, (clientMaps w (ident w f)).map Obj.map, [], [⟨f, c11.cmd.ConfigSet, none⟩], []⟩
+  else Run.quiet
+
+/-- `SessionManager.HandlePacket` for a command packet. -/
+def exec (v : Variant) (w : World) (f : Nat) (c : Cmd) : Run :=
+  if w.noExec && (special c.ctype c.resp).isNone then execNoExec w f c else execDispatch v w f c
 
 /-- Commands whose body `target_client_id` is, by protocol design, the addressee the sender chooses
 (DNS forward, client-to-client notification).  For every other command a client id in the body is a
